@@ -348,19 +348,6 @@ impl<'a> ReadAdapter<'a> {
         let buf = self.buffer();
         let mut output = [0; N];
         match buf.len() {
-            0 => {
-                let buf = self.non_empty_reader_buffer_mut()?;
-                if buf.len() < N {
-                    return Err(DeserializationError::UnexpectedEOF);
-                }
-                // SAFETY: This copy is guaranteed to be safe, as we have validated above
-                // that `buf` has at least N bytes, and `output` is defined to be exactly
-                // N bytes.
-                unsafe {
-                    core::ptr::copy_nonoverlapping(buf.as_ptr(), output.as_mut_ptr(), N);
-                }
-                self.reader.get_mut().consume(N);
-            },
             n if n >= N => {
                 // SAFETY: This copy is guaranteed to be safe, as we have validated above
                 // that `buf` has at least N bytes, and `output` is defined to be exactly
